@@ -227,7 +227,19 @@ def nontrivial(case):
     return unmatched or collide
 
 
+_X = ident("x")
 FIXED = [
+    # nested lambdas that re-use the variable name; the outer variable is used after the inner lambda
+    (("lambda", ident("items"), "any", "x",
+      ("bool", "and", ("lambda", ("path", _X, "parts"), "any", "x", ("cmp", "eq", ("path", _X, "n"), ("lit", "int", "1"))),
+       ("cmp", "eq", ("path", _X, "w"), _X))), [(_X, ident("outer_x"))]),
+    (("bool", "or", ("lambda", ident("items"), "all", "x",
+                     ("bool", "or", ("lambda", ("path", _X, "tags"), "all", "x", ("cmp", "ne", _X, ("lit", "str", "a"))),
+                      ("cmp", "gt", _X, ("lit", "int", "2")))), ("cmp", "eq", _X, ("lit", "int", "3"))),
+     [(_X, ("path", ident("rel"), "x2"))]),
+    # one alias key is a proper prefix of another: the longest match wins
+    (("cmp", "eq", ("path", ident("author"), "name"), ("path", ("path", ident("author"), "name"), "first")),
+     [(ident("author"), ident("writer")), (("path", ident("author"), "name"), ident("author_name"))]),
     # (filter term, map) pairs for the collisions the quantifier names explicitly
     (("cmp", "eq", ("call", "date", (), (ident("created"),)), ident("date")), [(ident("date"), ident("created_on"))]),
     (("cmp", "gt", ("call", "length", (), (ident("name"),)), ident("length")), [(ident("length"), ident("len_col"))]),
